@@ -11,6 +11,8 @@ mod storage;
 mod pubsub;
 mod replication;
 mod monitor;
+#[cfg(feature = "verif-hooks")]
+mod verif_hooks;
 
 use std::process;
 use error::Result;
